@@ -17,7 +17,7 @@
     extraction with separate sources for the instance pass and the feature
     pass) -- tied to /repo by the correspondence run of harness/vp/props/c16.py. *)
 From Coq Require Import List Ascii String ZArith NArith Bool Permutation.
-From Shexer Require Import Lib.PyStr Lib.Dict Spec.Rdf Spec.Restrict Model.Tracker Model.Freq Model.Run
+From Shexer Require Import Lib.PyStr Lib.Dict Gen.Consts Spec.Rdf Spec.Restrict Model.Tracker Model.Freq Model.Run
      Model.NsFilter Model.Run2 Proofs.RestrictProofs.
 Import ListNotations.
 
@@ -92,6 +92,13 @@ Theorem C16_cap_large_id : forall tau m k g z, (0 < k)%Z -> (z <= 0)%Z -> tau_ok
   track tau m k g = track tau m z g.
 Proof. exact cap_large_id. Qed.
 Print Assumptions C16_cap_large_id.
+
+(** ... in particular it equals the run with the option left at its default ([Consts.dflt_instances_cap], read from the source) *)
+Theorem C16_cap_large_is_default : forall tau m k g, (0 < k)%Z -> tau_ok tau g ->
+  (forall c, List.length (class_subjects tau (scope_of m) g c) <= Z.to_nat k) ->
+  track tau m k g = track tau m dflt_instances_cap g.
+Proof. exact cap_large_is_default. Qed.
+Print Assumptions C16_cap_large_is_default.
 
 Theorem C16_cap_large_id_run : forall fa c thr g z, (0 < r_cap c)%Z -> (z <= 0)%Z -> tau_ok (r_tau c) g ->
   (forall x, List.length (class_subjects (r_tau c) (r_targets c) g x) <= Z.to_nat (r_cap c)) ->
